@@ -1,7 +1,7 @@
 (* C04  A reference used as a layer merges like the inline value.  Statements only; proofs in
    Proofs/RefFacts.v (with StateFacts.v, StateIndep.v, InterpFacts.v) about the ValueList arm of
    Model/Interp.v. *)
-From RV Require Import Model.Interp Proofs.WfFacts Proofs.InterpFacts Proofs.RefFacts Proofs.Twin.
+From RV Require Import Model.Interp Proofs.WfFacts Proofs.InterpFacts Proofs.RefFacts Proofs.Twin Proofs.Unrender Proofs.Inline.
 
 (** In a multiply-defined parameter (at any nesting depth: the statement is about an arbitrary
     ValueList node), a layer x that renders to v merges exactly as if v had been written inline
@@ -97,6 +97,62 @@ Proof.
     apply tw_map_iff. eexists. split; [reflexivity|]. constructor; [|constructor].
     unfold twe. cbn [mk_entry e_key e_val e_const e_over fst snd]. repeat split.
     right. eapply (denotes_of_render _ W "${h}" 40 st0). vm_compute. reflexivity.
+  - eexists. split; vm_compute; reflexivity.
+Qed.
+
+(** "... as if the rendered referenced value had been written inline", literally: a document holds
+    strings as unparsed strings, a rendered value holds them as literals.  [lw a b]: [b] is [a]
+    with literal strings that carry no reference marker written as plain strings; [inle root]
+    composes the two relations entry by entry: reference strings replaced by what they render
+    to, written the way a document writes it.  The parameters so inlined render (with one more unit
+    of the model's fuel) to the very same result. *)
+Theorem C04_references_may_be_written_out_as_in_a_document :
+  forall root root'', wf (VMap root) -> wf (VMap root'') -> inle root root root'' ->
+    forall f r, render_with_self f (VMap root) = Ok r -> render_with_self (S f) (VMap root'') = Ok r.
+Proof. exact inlined_parameters_render_the_same. Qed.
+Eval cbv in "ASSUMPTIONS-OF C04_references_may_be_written_out_as_in_a_document"%string. Print Assumptions C04_references_may_be_written_out_as_in_a_document.
+
+(** literals and plain strings are interchangeable anywhere in the parameters *)
+Theorem C04_plain_strings_and_literals_are_interchangeable :
+  forall rootA rootB, wf (VMap rootA) -> wf (VMap rootB) -> Forall2 lwe rootA rootB ->
+    forall f r, render_with_self f (VMap rootA) = Ok r -> render_with_self (S f) (VMap rootB) = Ok r.
+Proof. exact unrendered_parameters_render_the_same. Qed.
+Eval cbv in "ASSUMPTIONS-OF C04_plain_strings_and_literals_are_interchangeable"%string. Print Assumptions C04_plain_strings_and_literals_are_interchangeable.
+
+(** Non-vacuity: the referenced value holds strings; the twin writes them as a document would *)
+Example C04_written_out_premises_hold :
+  let g x := mk_entry (VStr "g") (VMap [mk_entry (VStr "a") (VSeq [x]) false false]) false false in
+  let t x := mk_entry (VStr "t") (VList [VMap [mk_entry (VStr "n") (VMap [mk_entry (VStr "a") (VSeq [VStr "one"]) false false]) false false];
+                                         VMap [mk_entry (VStr "n") x false false]]) false false in
+  let root := [g (VStr "two"); t (VStr "${g}")] in
+  let root'' := [g (VStr "two"); t (VMap [mk_entry (VStr "a") (VSeq [VStr "two"]) false false])] in
+  wf (VMap root) /\ wf (VMap root'') /\ inle root root root'' /\
+  exists r, render_with_self 60 (VMap root) = Ok r /\ render_with_self 61 (VMap root'') = Ok r.
+Proof.
+  cbn zeta.
+  assert (W : wf (VMap [mk_entry (VStr "g") (VMap [mk_entry (VStr "a") (VSeq [VStr "two"]) false false]) false false;
+                        mk_entry (VStr "t") (VList [VMap [mk_entry (VStr "n") (VMap [mk_entry (VStr "a") (VSeq [VStr "one"]) false false]) false false];
+                                                    VMap [mk_entry (VStr "n") (VStr "${g}") false false]]) false false])).
+  { cbn. repeat split; repeat constructor; cbn; intuition discriminate. }
+  split; [exact W|]. split; [cbn; repeat split; repeat constructor; cbn; intuition discriminate|]. split.
+  - exists [mk_entry (VStr "g") (VMap [mk_entry (VStr "a") (VSeq [VStr "two"]) false false]) false false;
+            mk_entry (VStr "t") (VList [VMap [mk_entry (VStr "n") (VMap [mk_entry (VStr "a") (VSeq [VStr "one"]) false false]) false false];
+                                        VMap [mk_entry (VStr "n") (VMap [mk_entry (VStr "a") (VSeq [VLit "two"]) false false]) false false]]) false false].
+    split.
+    + constructor; [apply twe_refl|]. constructor; [|constructor].
+      unfold twe. cbn [mk_entry e_key e_val e_const e_over fst snd]. repeat split.
+      apply tw_list_iff. eexists. split; [reflexivity|]. constructor; [apply tw_refl|]. constructor; [|constructor].
+      apply tw_map_iff. eexists. split; [reflexivity|]. constructor; [|constructor].
+      unfold twe. cbn [mk_entry e_key e_val e_const e_over fst snd]. repeat split.
+      right. eapply (denotes_of_render _ W "${g}" 40 st0). vm_compute. reflexivity.
+    + constructor; [apply lwe_refl|]. constructor; [|constructor].
+      unfold lwe. cbn [mk_entry e_key e_val e_const e_over fst snd]. repeat split.
+      apply lw_list_iff. eexists. split; [reflexivity|]. constructor; [apply lw_refl|]. constructor; [|constructor].
+      apply lw_map_iff. eexists. split; [reflexivity|]. constructor; [|constructor].
+      unfold lwe. cbn [mk_entry e_key e_val e_const e_over fst snd]. repeat split.
+      apply lw_map_iff. eexists. split; [reflexivity|]. constructor; [|constructor].
+      unfold lwe. cbn [mk_entry e_key e_val e_const e_over fst snd]. repeat split.
+      apply lw_seq_iff. eexists. split; [reflexivity|]. constructor; [|constructor]. right. split; reflexivity.
   - eexists. split; vm_compute; reflexivity.
 Qed.
 
